@@ -10,6 +10,14 @@ sys.path.insert(0, ".")
 from mon import runner
 runner.build("rel")
 runner.build("chk")
-runner.build_cli()
+cli = runner.build_cli()
+runner.build_intern("rel")
+runner.build_intern("chk")
+try:
+    runner.build_intern("miri")
+except runner.Broken as e:      # C18 reports this as inconclusive, not as a violation
+    print("setup: Miri run not available:", e)
+from mon.props import c15
+c15.build_cdriver(cli)
 print("setup: builds ready")
 PY
